@@ -25,7 +25,7 @@ ASSUMPTIONS = ['EEPROM layout: "0xBC", version, channel, speed, pitch trim, roll
                '1-wire layout: 0xEB, pins u32, vid, pid, crc32&0xFF | 0x00, len, TLV..., crc32&0xFF',
                'reads that would run past the 112-byte 1-wire memory fail on the device and are not generated']
 REQUIRED = ['mon.i2c_roundtrip', 'mon.i2c_corruptions', 'mon.ow_roundtrip', 'mon.ow_corruptions', 'mon.lh_mem', 'mon.lh_yaml',
-            'mon.param_yaml', 'mon.poly4d', 'mon.led_timings', 'mon.deck_info', 'mon.loco', 'mon.loco2', 'mon.ow_all_lengths',
+            'mon.param_yaml', 'mon.poly4d', 'mon.led_timings', 'mon.led_timing_entries_around_the_end_marker', 'mon.deck_info', 'mon.loco', 'mon.loco2', 'mon.ow_all_lengths',
             'mon.compressed_trajectory_uploads', 'mon.lh_memory_to_file_to_memory']
 DESC_TIMEOUT = 900
 
@@ -517,6 +517,12 @@ def run_traj(desc, ctx):
             t = rnd.choice((0, 1, 255, rnd.randrange(256)))
             rgb = {k: rnd.choice((0, 255, rnd.randrange(256))) for k in 'rgb'}
             leds, fade, rot = rnd.randrange(16), rnd.random() < 0.5, rnd.randrange(8)
+            if rnd.random() < 0.3:
+                # entries at and around the all-zero end marker: dark or nearly dark colours, no flags, no duration
+                t = rnd.choice((0, 0, 0, 1))
+                rgb = {k: rnd.choice((0, 0, 1, 2, 4, 5, 8)) for k in 'rgb'}
+                leds, fade, rot = rnd.choice((0, 0, 0, 1)), False, 0
+                ctx.count('mon.led_timing_entries_around_the_end_marker')
             lt.add(t, rgb, leds, fade, rot)
             r5 = (rgb['r'] * 249 + 1014) >> 11
             g6 = (rgb['g'] * 253 + 505) >> 10
